@@ -24,6 +24,16 @@ Failed(r, te, tr) ==
   \cup (IF Has(r, "nonneg") /\ ~Acausal(te, tr) /\ ~r.nonneg THEN {"negative"} ELSE {})
   \cup (IF Has(r, "refpos") /\ ~Acausal(te, tr) /\ r.refpos /\ ~r.pos THEN {"not-positive"} ELSE {})
   \cup (IF Has(r, "ok") /\ ~r.ok THEN {"observation-false"} ELSE {})
+  \cup (IF Has(r, "bitwise") /\ ~r.bitwise THEN {"not-bitwise-equal"} ELSE {})
+  \cup (IF Has(r, "g")
+        THEN LET m == Moved(r.g, r.s, te, tr) IN
+             (IF m[1] = ToElem(r.te2) /\ m[2] = ToElem(r.tr2) /\ IsElem(m[1]) /\ IsElem(m[2]) THEN {} ELSE {"d:moved-pair-mislabelled"})
+        ELSE {})
+  \cup (IF Has(r, "split")
+        THEN (IF {ToElem(q) : q \in {r.te_pieces[i] : i \in 1..Len(r.te_pieces)}} = SplitPieces(te, r.split[1])
+                 /\ {ToElem(q) : q \in {r.tr_pieces[i] : i \in 1..Len(r.tr_pieces)}} = SplitPieces(tr, r.split[2])
+              THEN {} ELSE {"d:split-pieces-mislabelled"})
+        ELSE {})
   \cup (IF Has(r, "decomp") /\ ~r.decomp_skip
         THEN (IF {[a |-> p[1], b |-> p[2], c |-> p[3], d |-> p[4], rule |-> p[5]] : p \in {r.decomp[i] : i \in 1..Len(r.decomp)}}
                   = Decomp(te, tr) THEN {} ELSE {"d:panel-decomposition"})
